@@ -841,16 +841,15 @@ class World(object):
         fresh.on_event(H.Events.PRINT_STARTED, {})
         self.install()
         ku, kf = plugin_key_text(used.plugin), plugin_key_text(fresh)
-        if ku != kf:
-            diff = [(a, b) for a, b in zip(ku.split(","), kf.split(",")) if a != b][:3]
-            self.viol("C10 after print-started the plugin state differs from a freshly initialised plugin with the "
-                      "same regions and settings: %r" % (diff,))
-        st.tags.add("reset-compared")
-        cache_key = hashlib.blake2b(ku.encode(), digest_size=16).digest()
+        # The property is behavioural ("its output equals that of a freshly initialised plugin").  Equal
+        # canonical states have equal behaviour, so the probe programs are run once per distinct pair of
+        # states; a state difference alone is not reported, it only makes the probing one level deeper.
+        st.tags.add("reset-compared" if ku == kf else "reset-state-differs")
+        cache_key = hashlib.blake2b((ku + "##" + kf).encode(), digest_size=16).digest()
         if cache_key in World._c10_cache:
             return
         # differential probes: every program of <= depth commands after homing gives identical hook output
-        depth = self.cfg.get("probe_depth", 2)
+        depth = self.cfg.get("probe_depth", 2) + (0 if ku == kf else 1)
         import itertools
         fsnap = pickle.dumps(dict((k, v) for k, v in fresh.__dict__.items() if k != "_settings"), -1)
         usnap = used.snapshot()
@@ -882,8 +881,10 @@ class World(object):
                 a, b = run(up, prog), run(fp, prog)
                 n += 1
                 if a != b:
-                    self.viol("C10 after print-started the program %r gives %r on the used plugin and %r on a freshly "
-                              "initialised one" % (("G28",) + prog, a, b))
+                    i = [x != y for x, y in zip(a, b)].index(True)
+                    self.viol("C10 after print-started the program %r behaves differently from a freshly initialised "
+                              "plugin with the same regions and settings: step %d gives %r, fresh plugin %r"
+                              % (("G28",) + prog, i, a[i], b[i]))
         World._c10_cache[cache_key] = n
         st.tags.add("probed")
         self.mon["c10_probe_programs"] = 0      # (count is reported through tags only; state stays unchanged)
@@ -1093,8 +1094,8 @@ class World(object):
                 self.viol("C13 %s request answered with status %r, expected %r (%r)" % (op, got, exp, st.ev))
             if exp is not None:
                 st.tags.add("rejected:%s" % exp)
-                if changed or not same_key:
-                    self.viol("C13 rejected request (%s) modified the plugin state: %r" % (exp, st.ev))
+                if changed:
+                    self.viol("C13 rejected request (%s) modified the region list: %r" % (exp, st.ev))
                 if st.msgs:
                     self.viol("C13 rejected request (%s) sent a notification: %r" % (exp, st.ev))
             else:
@@ -1133,8 +1134,9 @@ class World(object):
                                   % (float(x), float(y), g, st.ev, got))
         if got != exp:
             self.viol("C12 %s request answered with status %r, expected %r (%r)" % (op, got, exp, st.ev))
-        if exp is not None and not same_key:
-            self.viol("C12 refused request changed the plugin state: %r" % (st.ev,))
+        if exp is not None and (norm_regions(now) != norm_regions(st.before) or
+                                [r["id"] for r in now] != [r["id"] for r in st.before]):
+            self.viol("C12 refused request changed the region list: %r" % (st.ev,))
 
     # ---- C15: a print that ends while excluding is cleaned up exactly once
     def _mon_c15(self, st):
@@ -1159,8 +1161,6 @@ class World(object):
                     self.viol("C15 script hook %s contributed %r although %s" % (
                         f.cmd, f.result, "no print is active" if not f.active else
                         ("no episode is open" if not f.episode0 else "it is not gcode/afterPrintDone")))
-                if not same_key:
-                    self.viol("C15 script hook %s changed the plugin state without contributing" % f.cmd)
 
     # ---- C14: @-commands switch exclusion off and on
     def _mon_c14(self, st):
@@ -1248,7 +1248,8 @@ class World(object):
             gc, _, words, junk = read(c)
             ok = (gc == "G92" and [l for l, _ in words] == ["E"]) or \
                  (gc in ("G0", "G1") and all(l in "FXYZ" for l, _ in words)) or \
-                 (gc in ("G0", "G1") and all(l in "FE" for l, _ in words))
+                 (gc in ("G0", "G1") and all(l in "FE" for l, _ in words)) or \
+                 (gc in ("G90", "G91", "M82", "M83") and not words)
             if not ok or c in exit_ or c in enter:
                 self.viol("C06 episode ended by %s: unexplained command %r after the exit script (emitted %r; "
                           "%d deferred, exit script %r)" % (how, c, emitted, len(pending), exit_), self._detail(f))
@@ -1342,13 +1343,13 @@ class World(object):
                     self.viol("C06 script hook contributed %r although no episode was open" % (f.result,))
 
     # ---- C07: synthesised commands are well-formed plain-decimal G-code
-    C07_RE = re.compile(r"^[GM][0-9]+(\.[0-9]+)?( [A-Z](-?[0-9]+(\.[0-9]+)?)?)*$")
+    C07_RE = re.compile(r"^[GM][0-9]+(\.[0-9]+)?(\s*[A-Z]\s*([-+]?([0-9]+(\.[0-9]*)?|\.[0-9]+))?)*\s*$")
 
     def _c07_check_cmd(self, c, f):
         if not self.C07_RE.match(c):
             self.viol("C07 generated command %r (for %r) is not plain-decimal G-code: expected one G/M code followed by "
                       "letter/number words in plain decimal notation" % (c, f.cmd), self._detail(f))
-        letters = [w[0] for w in c.split(" ")[1:]]
+        letters = [l for l, _ in read(c)[2]]
         if len(letters) != len(set(letters)):
             self.viol("C07 generated command %r (for %r) repeats a parameter letter" % (c, f.cmd), self._detail(f))
 
